@@ -5,7 +5,10 @@
   b <t> <v<n>|p>                                    → acc               (dispatch_blocking)
   drop <t>                                          → ok                (drop the oneshot receiver)
   wait <t>                                          → val <v> | cancelled | pending
+  g <t> v<n>                                        → acc               (dispatch_blocking, gated until `release`)
+  release                                           → ok                (open the gate)
   join                                              → ok | panic <p>
+  join f                                            → ok | panic <p>    (the pool is saturated: fallback thread)
   rx <t>                                            → val <v> | cancelled | pending      (after join)
   stat <t>                                          → started <n> on <workers> ended <n>
   order                                             → order <t>...      (start order; one worker only)
@@ -54,7 +57,9 @@ def parseObs (tok : String) : Option Obs :=
   | ["L", n] => n.toNat?.map .alive
   | ["P", sig, _] => some (.problem sig)
   | ["Rhang"] => some (.problem "join-hang")
-  | ["J"] => some .joinCall
+  | ["J"] => some (.joinCall false)
+  | ["JF"] => some (.joinCall true)
+  | ["R", "err"] => some .joinErr
   | ["R", "ok"] => some (.joinRet none)
   | ["R", p] => if p.startsWith "p" then ((p.drop 1).toString.toNat?).map fun p => .joinRet (some p) else none
   | _ => none
@@ -110,6 +115,18 @@ def op (d : Sched) (ws : List String) : String × Sched :=
   | ["join"] =>
     if !d.cfgd || !d.s.sender then ("no-dispatcher", d) else
     let d := d.joinAll; (showJoined d.s.joined, d)
+  | ["join", "f"] =>
+    if !d.cfgd || !d.s.sender then ("no-dispatcher", d) else
+    let d := d.joinAll true; (showJoined d.s.joined, d)
+  | ["g", t, out] =>
+    -- a gated blocking closure: occupies a pool thread until `release`; for the model a blocking task
+    if !d.cfgd then ("no-dispatcher", d) else
+    match t.toNat?, parseOut out with
+    | some t, some (o, _) =>
+      let d := d.fire (.dispatchBlocking 0 t ⟨0, o⟩ true)
+      (if d.s.accepted.contains t then "acc" else "rej", d)
+    | _, _ => ("bad-op", d)
+  | ["release"] => ("ok", d)
   | ["rx", t] =>
     match t.toNat? with
     | some t => let d := d.settleAll; (showChan (d.s.chan t), { d with taken := t :: d.taken })
